@@ -417,7 +417,7 @@ func (m *tokenBucketWrapper) SetLimit(acquireResult *AcquireResult) bool {
 		if token > m.reserve {
 			token = m.reserve
 		}
-		atomic.AddInt32(&m.tokens, result.Limit)
+		atomic.AddInt32(&m.tokens, token)
 	}
 
 	atomic.StoreInt64(&m.lastAcquireTime, acquireResult.requestTime)
